@@ -8,6 +8,15 @@
 import VM.Schema
 namespace VM.Spec
 
+/-- `x ≤ *m` for an optional upper bound (absent = no constraint) -/
+def atMost (x : Int) : Option Int → Bool
+  | none => true
+  | some m => decide (x ≤ m)
+/-- `*m ≤ x` for an optional lower bound -/
+def atLeast (x : Int) : Option Int → Bool
+  | none => true
+  | some m => decide (m ≤ x)
+
 def typeMatches (t : String) (v : JVal) : Bool :=
   if t == "integer" then v.isInteger else t == v.typeName
 
@@ -38,10 +47,10 @@ def numOK (b : SBase) : JVal → Bool
 
 def strOK (O : Oracles) (b : SBase) : JVal → Bool
   | .str s =>
-    (match b.maxLength with | none => true | some m => (s.length : Int) ≤ m)
-    && (match b.minLength with | none => true | some m => m ≤ (s.length : Int))
+    atMost s.length b.maxLength
+    && atLeast s.length b.minLength
     && (b.pattern == "" || O.re b.pattern s == some true)
-    && (b.format == "" || !O.fmtKnown b.format || O.fmt b.format s)
+    && (!O.fmtKnown b.format || O.fmt b.format s)
   | _ => true
 
 /-- pairwise distinct under `jeq` -/
@@ -51,17 +60,16 @@ def uniq : List JVal → Bool
 
 def arrSizeOK (b : SBase) : JVal → Bool
   | .arr xs =>
-    (match b.maxItems with | none => true | some m => (xs.length : Int) ≤ m)
-    && (match b.minItems with | none => true | some m => m ≤ (xs.length : Int))
+    atMost xs.length b.maxItems
+    && atLeast xs.length b.minItems
     && (!b.uniqueItems || uniq xs)
   | _ => true
 
 def objSizeOK (b : SBase) : JVal → Bool
   | .obj kvs =>
-    (match b.maxProps with | none => true | some m => (kvs.length : Int) ≤ m)
-    && (match b.minProps with | none => true | some m => m ≤ (kvs.length : Int))
+    atMost kvs.length b.maxProps
+    && atLeast kvs.length b.minProps
     && b.required.all (fun k => ahas k kvs)
-    && b.depProps.all (fun (k, ds) => !ahas k kvs || ds.all (fun d => ahas d kvs))
   | _ => true
 
 /-- verdict functions of the sub-schemas of one node -/
@@ -87,50 +95,83 @@ def tupleOK : List (JVal → Bool) → List JVal → Bool
   | f :: fs, x :: xs => f x && tupleOK fs xs
   | _, _ => true
 
+/-- `items: {schema}`: every element -/
+def allItems (f : Option (JVal → Bool)) (xs : List JVal) : Bool :=
+  match f with
+  | some g => xs.all g
+  | none => true
+
+/-- `additionalItems` next to a tuple: `false` forbids extra elements, a schema constrains them -/
+def addlItemsOK (b : SBase) (k : SKids) (xs : List JVal) : Bool :=
+  match b.addItems, k.addItemsS with
+  | .bool false, _ => decide (xs.length ≤ k.itemsT.length)
+  | .schema, some f => (xs.drop k.itemsT.length).all f
+  | _, _ => true
+
 def itemsOK (b : SBase) (k : SKids) : JVal → Bool
   | .arr xs =>
-    (match k.itemsS with | some f => xs.all f | none => true)
-    && (k.itemsT.isEmpty ||
-        (tupleOK k.itemsT xs
-         && (match b.addItems, k.addItemsS with
-             | .bool false, _ => decide (xs.length ≤ k.itemsT.length)
-             | .schema, some f => (xs.drop k.itemsT.length).all f
-             | _, _ => true)))
+    allItems k.itemsS xs && (k.itemsT.isEmpty || (tupleOK k.itemsT xs && addlItemsOK b k xs))
   | _ => true
 
 /-- is the member name "additional" (neither declared nor pattern-matched)? -/
 def isAdditional (O : Oracles) (k : SKids) (name : String) : Bool :=
   !(ahas name k.props || patMatches O (akeys k.patProps) name)
 
+/-- a declared property that is present must satisfy its schema -/
+def propOK (kvs : List (String × JVal)) (nf : String × (JVal → Bool)) : Bool :=
+  match alookup nf.1 kvs with
+  | some x => nf.2 x
+  | none => true
+
+def propsOK (k : SKids) (kvs : List (String × JVal)) : Bool := k.props.all (propOK kvs)
+
+/-- member (name, x) against every pattern property whose pattern matches its name -/
+def patsOKFor (O : Oracles) (k : SKids) (name : String) (x : JVal) : Bool :=
+  k.patProps.all (fun pf => !(O.re pf.1 name == some true) || pf.2 x)
+
+def patsOK (O : Oracles) (k : SKids) (kvs : List (String × JVal)) : Bool :=
+  kvs.all (fun kv => patsOKFor O k kv.1 kv.2)
+
+/-- additional members: forbidden by `false`, constrained by a schema -/
+def addlPropsOK (O : Oracles) (b : SBase) (k : SKids) (kvs : List (String × JVal)) : Bool :=
+  match b.addProps, k.addPropsS with
+  | .bool false, _ => kvs.all (fun kv => !isAdditional O k kv.1)
+  | .schema, some f => kvs.all (fun kv => !isAdditional O k kv.1 || f kv.2)
+  | _, _ => true
+
 def membersOK (O : Oracles) (b : SBase) (k : SKids) (v : JVal) : Bool :=
   match v with
+  | .obj kvs => propsOK k kvs && patsOK O k kvs && addlPropsOK O b k kvs
+  | _ => true
+
+/-- dependencies: if the key is present, the listed members must be present too (property
+    dependency) or the whole object must satisfy the schema (schema dependency) -/
+def depsOK (b : SBase) (k : SKids) (v : JVal) : Bool :=
+  match v with
   | .obj kvs =>
-    -- declared properties that are present
-    k.props.all (fun (name, f) => match alookup name kvs with | some x => f x | none => true)
-    -- every member against every pattern property whose pattern matches its name
-    && kvs.all (fun (name, x) => k.patProps.all (fun (p, f) => !(O.re p name == some true) || f x))
-    -- additional members
-    && (match b.addProps, k.addPropsS with
-        | .bool false, _ => kvs.all (fun (name, _) => !isAdditional O k name)
-        | .schema, some f => kvs.all (fun (name, x) => !isAdditional O k name || f x)
-        | _, _ => true)
-    -- schema dependencies: if the key is present the whole object must satisfy the schema
-    && k.depSchemas.all (fun (name, f) => !ahas name kvs || f v)
+    b.depProps.all (fun nd => !ahas nd.1 kvs || nd.2.all (fun d => ahas d kvs))
+    && k.depSchemas.all (fun nf => !ahas nf.1 kvs || nf.2 v)
   | _ => true
 
 def countTrue (fs : List (JVal → Bool)) (v : JVal) : Nat := (fs.filter (· v)).length
+
+/-- `not`: the instance must be rejected by the schema -/
+def notOK (f : Option (JVal → Bool)) (v : JVal) : Bool :=
+  match f with
+  | some g => !g v
+  | none => true
 
 def compOK (k : SKids) (v : JVal) : Bool :=
   k.allOf.all (· v)
   && (k.anyOf.isEmpty || k.anyOf.any (· v))
   && (k.oneOf.isEmpty || countTrue k.oneOf v == 1)
-  && (match k.not with | some f => !f v | none => true)
+  && notOK k.not v
 
 /-- draft-4 validity of one node, given the verdicts of its sub-schemas -/
 def nodeValid (O : Oracles) (b : SBase) (k : SKids) (v : JVal) : Bool :=
   typeOK b.types v && enumOK b.enum v && numOK b v && strOK O b v
   && arrSizeOK b v && objSizeOK b v
-  && itemsOK b k v && membersOK O b k v && compOK k v
+  && itemsOK b k v && membersOK O b k v && depsOK b k v && compOK k v
 
 mutual
 def valid (O : Oracles) (r : String → JVal → Bool) : Schema → JVal → Bool
